@@ -85,7 +85,7 @@ type env struct {
 var opsFetch = map[string]bool{"fetch": true, "fetch-prune": true, "fetch-alltags": true, "fetch-from-shallow": true, "fetch-deepen": true}
 
 func run(c *vf.Ctx) {
-	e := &env{c: c, g: gitx.New(c.Scratch), root: filepath.Join(c.Scratch, "served"), work: filepath.Join(c.Scratch, "work"), base: 150 * time.Second}
+	e := &env{c: c, g: longGit(c.Scratch), root: filepath.Join(c.Scratch, "served"), work: filepath.Join(c.Scratch, "work"), base: 150 * time.Second}
 	os.MkdirAll(e.root, 0o755)
 	os.MkdirAll(e.work, 0o755)
 	ggFile := lab.GoGitFile(e.root)
@@ -111,7 +111,7 @@ func run(c *vf.Ctx) {
 			e.cells = append(e.cells, cell{"git", s, v})
 		}
 	}
-	nScen := c.N(12, 110)
+	nScen := c.N(12, 50)
 	perScen := c.N(7, len(e.cells))
 	var mu sync.Mutex
 	sampled := 0
@@ -174,10 +174,10 @@ func run(c *vf.Ctx) {
 		c.Count("server_error_log_lines_"+s.Kind, len(s.ErrorLog()))
 	}
 	c.Extra("git_invocations", gitx.Calls.Load())
-	c.Floor("successful exchanges judged", c.Counter("exchanges_ok"), c.N(60, 1500))
+	c.Floor("successful exchanges judged", c.Counter("exchanges_ok"), c.N(60, 700))
 	c.Floor("cells with at least one successful exchange", c.SeenCount("cells_ok"), 21)
 	c.Floor("operations with at least one successful exchange", c.SeenCount("ops_ok"), c.N(7, 10))
-	c.Floor("shallow files compared with git's", c.Counter("shallow_compared"), c.N(4, 100))
+	c.Floor("shallow files compared with git's", c.Counter("shallow_compared"), c.N(4, 60))
 	c.Assume("the statement speaks about successful fetches and clones: an operation that returns an error (go-git or git client) is counted, sampled into the evidence and never a violation; in particular go-git refusing to clone a repository whose HEAD points to a missing branch ('reference not found', git clones it with a warning) is a refusal, not a violation")
 	c.Assume("tags sit on commits reachable from branches, so that auto-following, --tags and clone agree on the tag set; in 'following' mode only wrong values / tags unknown to the server are violations, a smaller set than git's is an observation (tags_follow_fewer_than_git)")
 	c.Assume("depth requests are made identical on both sides (git: --no-single-branch --no-tags with --depth); the expected shallow file is what git 2.39.5 client <-> git daemon produce for the same request on the same repository")
@@ -193,7 +193,7 @@ func (e *env) build(i int) *scenario {
 	sc := &scenario{Idx: i, Op: ops[i%len(ops)], Tags: "following"}
 	n := 6 + r.Intn(20)
 	sc.Class = "dag"
-	if !c.Quick() && i%17 == 3 {
+	if !c.Quick() && i%13 == 3 {
 		n, sc.Class = 300, "chain300"
 	}
 	opts := gen.HistOpts{N: n, MergeProb: 0.3, Octopus: r.Intn(2) == 0, SkewTime: r.Intn(2) == 0, Files: 3, Path: gen.PathOpts{Depth: 2}, Branches: 2 + r.Intn(3)}
@@ -260,6 +260,10 @@ func (e *env) build(i int) *scenario {
 	}
 	ids, err := e.g.Import(d2, h2)
 	if err != nil {
+		if strings.Contains(err.Error(), "exit=-1") { // git timed out on the loaded machine: skip, the floors decide
+			c.Count("scenarios_skipped_build_timeout", 1)
+			return nil
+		}
 		c.Broken("import: %v", err)
 		return nil
 	}
@@ -350,6 +354,12 @@ func (e *env) build(i int) *scenario {
 	}
 	c.Count("reference_exchanges", 1)
 	return sc
+}
+
+func longGit(scratch string) *gitx.Git {
+	g := gitx.New(scratch)
+	g.Timeout = 300 * time.Second
+	return g
 }
 
 func reachable(h *gen.History) map[int]bool {
